@@ -55,6 +55,8 @@ class Harness:
             self.projects.append(signac.init_project(d))
             self.model.append({})
         self.handles = []      # (project index, Job handle)
+        self.copy_group = {}   # id(handle) -> group: a handle and its shallow copies (copy.copy) share the state point object
+        self.keepalive = []    # copies are kept referenced so that id() stays unique
         self.trace = []
 
     def close(self):
@@ -332,6 +334,11 @@ class Harness:
         if expect == "exists":
             return f"FAIL:re-key onto an existing job did not raise DestinationExistsError ({how})"
         new, what = self.rekey_model(hp, old, newsp)
+        grp = self.copy_group.get(id(job))
+        if grp is not None:
+            for _, h2 in self.handles:
+                if h2 is not job and self.copy_group.get(id(h2)) == grp and h2.id != new:
+                    return f"FAIL:a shallow copy (copy.copy) of the handle did not follow the state point change ({how}): the copy has id {h2.id}, the job is now {new}"
         self.drop_stale(old, new)
         if job.id != new:
             return f"FAIL:handle id {job.id} after {how}, expected {new}"
@@ -406,7 +413,10 @@ class Harness:
         pi, job = h
         how = self.rnd.choice(["copy", "deepcopy", "pickle", "reopen", "drop"])
         if how == "copy":
-            self.handles.append((pi, copy.copy(job)))
+            c = copy.copy(job)
+            self.copy_group[id(c)] = self.copy_group.setdefault(id(job), id(job))     # shallow copies of one handle form a group
+            self.keepalive.extend([c, job])
+            self.handles.append((pi, c))
         elif how == "deepcopy":
             self.handles.append((pi, copy.deepcopy(job)))
         elif how == "pickle":
